@@ -64,7 +64,7 @@ end
 g := mk(1)
 println(g.().inspect)
 println(g.().inspect)
-""", "13\n21\n"),
+""", "15\n23\n"),
 ]
 
 
@@ -76,14 +76,17 @@ def key_of(feats, cls, env):
 
 def run(ctx):
     ctx.explanation = (
-        "PROVED (Coq, coq/Props/C13.v) on the address-level upvalue machine (captureUpvalue, opCloseUpvalues, Upvalue.Get/Set/Close, "
-        "call/return, growValueStack after the C10 fix): the open list stays strictly sorted, duplicate-free and inside the live stack "
-        "(C13_sorted_inv); for every micro-op trace satisfying the discipline D (operands in range; a slot is never popped while a "
-        "closure refers to the variable instance in it) the reads of the implementation machine equal those of the store-semantics "
-        "spec in which every variable instance is a heap cell (C13_refines) - this includes sharing, per-iteration instances, reads and "
-        "writes after the defining frame returned (C13_after_return) and growth at any point. NOT PROVED: that the Go code is the "
-        "model and that the compiler always emits code satisfying D; both are differential-tested by c13.prog (generated closure "
-        "programs vs a store-semantics reference interpreter, also under a small initial stack so that growth happens with open upvalues).")
+        "PROVED UNBOUNDED (Coq, coq/Props/C13.v) on the address-level upvalue machine (captureUpvalue, opCloseUpvalues, Upvalue.Get/Set/"
+        "Close, call/return, growValueStack after the C10 fix), for every operation sequence from the initial state: the open list is "
+        "strictly sorted by slot address, duplicate-free, holds exactly the open upvalues, all pointing at slot addresses of the current "
+        "array, also across growth (C13_sorted_inv, C13_sorted_inv_step); one open upvalue per slot, so captures of one live variable "
+        "share it (C13_one_upvalue_per_slot). PROVED ONLY BOUNDED (exhaustive vm_compute over all traces of <= 6 operations from a "
+        "19-operation alphabet satisfying the discipline D): reads of the implementation machine = reads of the store-semantics spec "
+        "where every variable instance is a cell (C13_refines_bounded; worked instances for access after return and per-iteration "
+        "instances). NOT PROVED: the unbounded refinement, 'addresses inside the live stack', that the Go code is the model (no "
+        "machine-level hook stream was built), that the compiler always emits code satisfying D. These are covered only by the "
+        "differential stream c13.prog (generated closure programs vs a store-semantics reference interpreter, half of them with a "
+        "small initial stack so that growth happens while upvalues are open).")
     ctx.trusted_base += ["Python reference interpreter lib/c13lang.py (cells per variable instance) as expected-output oracle",
                          "the discipline D is assumed of compiled code (tested through program behaviour, not checked on bytecode)"]
     ctx.run_proof_gate()
@@ -117,7 +120,7 @@ def run(ctx):
             continue
         for f in p["features"]:
             featcount[f] = featcount.get(f, 0) + 1
-        env = {} if prng.chance(1, 2) else {"ELK_INIT_VALUE_STACK_SIZE": prng.choice(["0", "6144", "7000", "12000"])}
+        env = {} if prng.chance(1, 2) else {"ELK_INIT_VALUE_STACK_SIZE": prng.choice(["6144", "7000", "9000", "12000"])}
         items.append(("gen:c13:%d" % seed, c13lang.to_elk(p), exp, env, p["features"]))
     os.makedirs(os.path.join(ctx.workdir, "prog"), exist_ok=True)
 
